@@ -369,6 +369,14 @@ func (w *World) backupLetter(arg string) bool {
 			}
 		}
 	}
+	// earlier backups are snapshots: they must not change when the source moves on
+	for d, dg := range w.bkDigest {
+		if d != w.BkDir {
+			if now := DirDigest(d, true); now != dg {
+				w.failf("C20", "an earlier backup (%s) changed after it was taken", filepath.Base(d))
+			}
+		}
+	}
 	srcBefore := DirDigest(w.Dir, true)
 	srcFP := w.Observe(ObsAll | ObsFP)
 	srcAfterObs := DirDigest(w.Dir, true)
@@ -426,6 +434,13 @@ func (w *World) backupLetter(arg string) bool {
 	if cerr := bl.Close(); cerr != nil {
 		w.failf("C20", "Close of the backup failed: %v", cerr)
 	}
+	if d := DirDigest(w.Dir, true); d != srcAfterObs && !pkg {
+		w.failf("C20", "opening the backup (%s) changed the source directory", arg)
+	}
+	if w.bkDigest == nil {
+		w.bkDigest = map[string]string{}
+	}
+	w.bkDigest[w.BkDir] = DirDigest(w.BkDir, true)
 	w.BkClean = true
 	return true
 }
